@@ -271,9 +271,45 @@ def r4(chk, ctx, p, se):
         chk.ob("C05.R4", "%s: branch records carry the fan-out id" % f.name, ok, "", key="%s | branch record ID" % f.qname, where=f.where(), message="")
 
 
+def _name_conjuncts(test):
+    out = set()
+    if isinstance(test, ast.Name):
+        out.add(test.id)
+    elif isinstance(test, ast.BoolOp) and isinstance(test.op, ast.And):
+        for v in test.values:
+            out |= _name_conjuncts(v)
+    return out
+
+
+def r5(chk, ctx, p, se):
+    """an empty Branch list is created only where an entry is pushed under the same non-emptiness condition"""
+    par, mp = _delegates(p)
+    n = 0
+    for f in (par, mp):
+        creates = [s for s in body_nodes(f) if isinstance(s, ast.Assign) and norm(s.targets[0]) == "context_state['Branch']" and isinstance(s.value, ast.List) and not s.value.elts]
+        pushes = [c for c in body_nodes(f) if isinstance(c, ast.Call) and norm(c.func) == "context_state['Branch'].append"]
+        chk.ob("C05.R5", "%s creates the Branch stack and pushes its entry" % f.name, len(creates) == 1 and len(pushes) == 1, "", key="%s | Branch stack creation/push sites" % f.qname, where=f.where(), message="")
+        if len(creates) != 1 or len(pushes) != 1:
+            continue
+        n += 1
+        gc, ga = set(), set()
+        for i, arm in enclosing_ifs(se, creates[0], f.node):
+            if arm == "body":
+                gc |= _name_conjuncts(i.test)
+        for i, arm in enclosing_ifs(se, pushes[0], f.node):
+            if arm == "body":
+                ga |= _name_conjuncts(i.test)
+        ok = ga <= gc
+        chk.ob("C05.R5", "%s: the empty Branch list is created only under the condition(s) %s that also guard the push" % (f.name, sorted(ga) or "none"), ok, "creation under %s" % sorted(gc),
+               key="%s | an empty Branch stack can be left in the context (created under %s, entry pushed under %s)" % (f.qname, sorted(gc), sorted(ga)), where=f.where(creates[0]),
+               message="the terminal path reads Branch[-1]: an empty list raises IndexError in the handler and again in its error arm, so no terminal notification is ever sent (e.g. a top-level Map over an empty array)")
+    chk.floor("C05.R5", n, 2, "fan-out delegates with a Branch stack")
+
+
 def run(chk, ctx):
     p = ctx.protocol()
     se = ctx.mod("state_engine")
+    r5(chk, ctx, p, se)
     r1(chk, ctx, p, se)
     r2(chk, ctx, p, se)
     r3(chk, ctx, p, se)
